@@ -3620,6 +3620,8 @@ class ExpectileGAM(GAM):
                 max_ = self.expectile
 
             expectile = (max_ + min_) / 2.0
+            if expectile in (min_, max_):
+                break  # the bracket cannot be halved any further
             self.set_params(expectile=expectile)
             self.fit(X, y, weights=weights)
 
